@@ -2,6 +2,8 @@ package main
 
 import (
 	"fmt"
+	"sync"
+	"time"
 
 	mqtt "github.com/mochi-mqtt/server/v2"
 
@@ -47,6 +49,65 @@ func c10Wraparound(c *vk.Ctx) {
 		b.Shutdown()
 	}
 	c.MinEvents["wrap_ids_observed"] = 30
+}
+
+// c10Concurrent: several publishers deliver to one subscriber at the same moment (each connection has its own handler
+// goroutine, every publisher sends its whole burst in one write); the subscriber acknowledges nothing. Every outbound
+// PUBLISH must then carry an id of its own, none 0, also while the id counter passes 65535.
+func c10Concurrent(c *vk.Ctx) {
+	rounds := c.N(12, 60)
+	for round := 0; round < rounds; round++ {
+		b := eng.NewBroker(eng.Options{})
+		sub, _ := dConnect(b, 4, "cs", true, nil, nil)
+		sub.send(subscribePkt(1, "cc/#", 1))
+		if round%2 == 1 {
+			if cl, ok := b.S.Clients.Get("cs"); ok {
+				cl.VerifSetPacketID(65535 - 300)
+			}
+		}
+		const P, K = 8, 150
+		var pubs []*dconn
+		for i := 0; i < P; i++ {
+			d, _ := dConnect(b, 4, fmt.Sprintf("cp%d", i), true, nil, nil)
+			pubs = append(pubs, d)
+		}
+		var wg sync.WaitGroup
+		for i, d := range pubs {
+			var blob []byte
+			for k := 0; k < K; k++ {
+				pk := publishPkt(fmt.Sprintf("cc/%d", i), 1, uint16(1+k), fmt.Sprintf("c%d-%d", i, k), false)
+				pk.Version = 4
+				blob = append(blob, rc.Encode(pk, rc.FormAuto)...)
+			}
+			wg.Add(1)
+			go func(d *dconn, blob []byte) { defer wg.Done(); d.SendRaw(blob) }(d, blob)
+		}
+		wg.Wait()
+		b.Quiesce(30 * time.Second)
+		seen := map[uint16]string{}
+		got := 0
+		for _, rp := range sub.Drain() {
+			if rp.P.Type != rc.PUBLISH || rp.P.QoS == 0 {
+				continue
+			}
+			got++
+			id := rp.P.PacketID
+			if id == 0 {
+				c.Violate("C10/packet-id-zero", map[string]string{"concurrent": "true"}, fmt.Sprintf("outbound QoS 1 PUBLISH %q has packet id 0", rp.P.Payload), nil)
+			}
+			if other, ok := seen[id]; ok {
+				c.Violate("C10/packet-id-in-use", map[string]string{"concurrent": "true", "wrap": fmt.Sprint(round%2 == 1)},
+					fmt.Sprintf("%d publishers x %d QoS 1 messages to one subscriber that acknowledges nothing: packet id %d was given to %q while %q is unacknowledged", P, K, id, rp.P.Payload, other),
+					map[string]any{"publishers": P, "messages_each": K, "round": round})
+				break
+			}
+			seen[id] = string(rp.P.Payload)
+		}
+		c.Count("concurrent_outbound_ids_observed", int64(got))
+		c.Eval(vk.Hash("c10conc", round), got > P)
+		b.Shutdown()
+	}
+	c.MinEvents["concurrent_outbound_ids_observed"] = int64(rounds) * 500
 }
 
 // c11Inbound: the broker must not answer 0x93 while the client stays within the advertised Receive Maximum.
